@@ -41,6 +41,15 @@ Max2(a, b) == IF a > b THEN a ELSE b
 
 AddOps == {"add", "addw", "addr"}
 
+\* The REPLICA SETTING of a ring: NewCustomConsistentHash(s, fn) creates a ring whose plain Add uses
+\* BaseOf(s) virtual nodes - a setting below the minimum (also 0 and below) is RAISED TO THE MINIMUM, so
+\* that AddWithWeight(n, w) with w >= 1 never truncates to 0 virtual nodes ("reports absence only when no
+\* node of positive weight is present") and equal weights get comparable shares.  NewConsistentHash() is
+\* the setting MinReplicas.  Base is the constant of one TLC run; the generator and the trace spec ASSUME
+\* that every setting they carry has BaseOf(setting) = Base.
+MinReplicas == 100
+BaseOf(s) == IF s < MinReplicas THEN MinReplicas ELSE s
+
 \* number of virtual nodes an add operation asks for
 Eff(o) == CASE o.op = "add"  -> Base
             [] o.op = "addw" -> Max2(0, (Base * o.w) \div 100)
@@ -52,15 +61,17 @@ Ops == {[op |-> "add", n |-> n] : n \in Nodes}
        \cup {[op |-> "remove", n |-> n] : n \in Nodes}
        \cup {[op |-> "lookup"]}
 
+InitMem == [n \in Nodes |-> Absent]
+InitAsg == [k \in Probe |-> None]
+
 \* "build" (trace validation only): a constructor (cache.New, kv.New) adds o.mem[n] virtual nodes
 \* of every node n to an empty ring in one observed step
+\* "new" (generator / trace validation): the ring is created with replica setting o.set - it is empty
 MemAfter(m, o) == CASE o.op = "lookup" -> m
+                    [] o.op = "new"    -> InitMem
                     [] o.op = "remove" -> [m EXCEPT ![o.n] = Absent]
                     [] o.op = "build"  -> [n \in Nodes |-> o.mem[n]]
                     [] OTHER           -> [m EXCEPT ![o.n] = Eff(o)]
-
-InitMem == [n \in Nodes |-> Absent]
-InitAsg == [k \in Probe |-> None]
 
 Live(m) == {n \in Nodes : m[n] > 0}
 
@@ -73,6 +84,7 @@ MoveOK(m, o, f, t) ==
   CASE o.op = "lookup" -> FALSE
     [] o.op = "remove" -> f = o.n
     [] o.op = "build"  -> f = None /\ m = InitMem
+    [] o.op = "new"    -> FALSE
     [] OTHER           -> IF m[o.n] = Absent THEN t = o.n ELSE (f = o.n \/ t = o.n)
 
 Contract(m, a, o, a2) ==
